@@ -378,6 +378,12 @@ func reifyGetField(
 			return nil
 		}
 
+		// A Config held by value has no fields to initialize: without a setting
+		// it is left alone (with one it still has to be a pointer).
+		if fieldType.Kind() == reflect.Struct && tConfig.ConvertibleTo(fieldType) {
+			return nil
+		}
+
 		// Primitive types return early when it doesn't implement the Initializer interface.
 		if fieldType.Kind() != reflect.Struct && !hasInitDefaults(fieldType) {
 			if err := tryRecursiveValidate(to, opts.opts, opts.validators); err != nil {
